@@ -69,6 +69,6 @@ Spec == Init /\ [][Next]_vars
 NoWrongSuccess == (lay.filecrc /\ verdict # "pending") => verdict \notin {"different-content"}
 (* the header of an encoded header is covered as well - when the writer stored its CRC or the codec checks *)
 HeaderCovered == (verdict # "pending" /\ (lay.hdrcrc \/ lay.codecChecks)) => verdict # "different-header"
-(* what the writer under test leaves uncovered (reported by the check, decided by the exhaustive bit-flip replay) *)
+(* what a writer that stores no header CRC leaves uncovered (py7zr before the repair; HeaderCrcWritten records what the tree under test does) *)
 UncoveredByWriter == (verdict = "different-header") => ~(HeaderCrcWritten \/ lay.codecChecks)
 =============================================================================
